@@ -212,3 +212,72 @@ Proof.
     exists (s :: pre), bad, rest, c, e1. cbn [app access length]. rewrite E. repeat split; auto. f_equal. lia.
   - intro H; injection H as <-. exists [], s, r, cur, e0. cbn. rewrite Nat.add_0_r. auto.
 Qed.
+
+(* ---- the arguments of a recorded call are evaluated in Python's order: positional left to right, then keywords ---- *)
+Definition eval_one (rec : evalfn) (target : val) (x : arg) : res val :=
+  match arg_val rec target x with
+  | Ok (EVal v) => Ok v
+  | Ok _ => Unmodelled "call-arg"
+  | Raise e => Raise e | Unmodelled t => Unmodelled t | OutOfFuel => OutOfFuel end.
+Fixpoint eval_pos (rec : evalfn) (target : val) (l : list arg) : res (list val) :=
+  match l with
+  | [] => Ok []
+  | x :: r => match eval_one rec target x with
+              | Ok v => match eval_pos rec target r with Ok vs => Ok (v :: vs) | Raise e => Raise e | Unmodelled t => Unmodelled t | OutOfFuel => OutOfFuel end
+              | Raise e => Raise e | Unmodelled t => Unmodelled t | OutOfFuel => OutOfFuel end end.
+Fixpoint eval_kws (rec : evalfn) (target : val) (l : list (string * arg)) : res (list (string * val)) :=
+  match l with
+  | [] => Ok []
+  | (k, x) :: r => match eval_one rec target x with
+                   | Ok v => match eval_kws rec target r with Ok kvs => Ok ((k, v) :: kvs) | Raise e => Raise e | Unmodelled t => Unmodelled t | OutOfFuel => OutOfFuel end
+                   | Raise e => Raise e | Unmodelled t => Unmodelled t | OutOfFuel => OutOfFuel end end.
+
+Lemma call_args_order_lemma : forall rec target args kw,
+  arg_val rec target (ACall args kw) =
+  match eval_pos rec target args with
+  | Ok vs => match eval_kws rec target kw with
+             | Ok kvs => Ok (ECall vs kvs)
+             | Raise e => Raise e | Unmodelled t => Unmodelled t | OutOfFuel => OutOfFuel end
+  | Raise e => Raise e | Unmodelled t => Unmodelled t | OutOfFuel => OutOfFuel end.
+Proof.
+  intros rec target args kw. cbn [arg_val].
+  match goal with |- bind ?P _ = _ => assert (HP : P = eval_pos rec target args) end.
+  { induction args as [|x r IH]; [reflexivity|]. cbn [eval_pos]. unfold eval_one.
+    destruct (arg_val rec target x) as [[v|? ? ?|? ?|]|e|t|]; cbn [bind]; try reflexivity.
+    rewrite IH. destruct (eval_pos rec target r); reflexivity. }
+  rewrite HP. destruct (eval_pos rec target args) as [vs|e|t|]; cbn [bind]; try reflexivity.
+  match goal with |- bind ?P _ = _ => assert (HK : P = eval_kws rec target kw) end.
+  { induction kw as [|[k x] r IH]; [reflexivity|]. cbn [eval_kws]. unfold eval_one.
+    destruct (arg_val rec target x) as [[v|? ? ?|? ?|]|e|t|]; cbn [bind]; try reflexivity.
+    rewrite IH. destruct (eval_kws rec target r); reflexivity. }
+  rewrite HK. destruct (eval_kws rec target kw); reflexivity.
+Qed.
+
+(* the first failing positional argument is the one reported, whatever follows it and whatever the keywords hold *)
+Lemma eval_pos_first_failure : forall rec target pre x post vs e,
+  eval_pos rec target pre = Ok vs -> eval_one rec target x = Raise e ->
+  eval_pos rec target (pre ++ x :: post) = Raise e.
+Proof.
+  intros rec target pre. induction pre as [|p pre IH]; intros x post vs e Hpre Hx; cbn [app eval_pos].
+  - rewrite Hx. reflexivity.
+  - cbn [eval_pos] in Hpre. destruct (eval_one rec target p) as [v|?|?|]; try discriminate.
+    destruct (eval_pos rec target pre) as [vs'|?|?|] eqn:E; try discriminate.
+    rewrite (IH x post vs' e eq_refl Hx). reflexivity.
+Qed.
+Lemma call_positional_failure_first_lemma : forall rec target pre x post kw vs e,
+  eval_pos rec target pre = Ok vs -> eval_one rec target x = Raise e ->
+  arg_val rec target (ACall (pre ++ x :: post) kw) = Raise e.
+Proof. intros. rewrite call_args_order_lemma, (eval_pos_first_failure _ _ _ _ _ _ _ H H0). reflexivity. Qed.
+(* a keyword argument is only evaluated once every positional one has a value; the first failing keyword is reported *)
+Lemma call_keyword_failure_lemma : forall rec target args pre k x post vs kvs e,
+  eval_pos rec target args = Ok vs -> eval_kws rec target pre = Ok kvs -> eval_one rec target x = Raise e ->
+  arg_val rec target (ACall args (pre ++ (k, x) :: post)) = Raise e.
+Proof.
+  intros rec target args pre k x post vs kvs e Ha Hpre Hx. rewrite call_args_order_lemma, Ha.
+  assert (H : eval_kws rec target (pre ++ (k, x) :: post) = Raise e).
+  { revert kvs Hpre. induction pre as [|[k' p] pre IH]; intros kvs Hpre; cbn [app eval_kws].
+    - rewrite Hx. reflexivity.
+    - cbn [eval_kws] in Hpre. destruct (eval_one rec target p); try discriminate.
+      destruct (eval_kws rec target pre) as [kvs'|?|?|]; try discriminate. rewrite (IH kvs' eq_refl). reflexivity. }
+  rewrite H. reflexivity.
+Qed.
